@@ -19,6 +19,29 @@ func init() {
 	}})
 }
 
+// calls of `name` in fd, or in a function of the same file that fd calls directly (one level: the
+// encoding may sit in a small helper)
+func c05CallsVia(tr *File, fd *ast.FuncDecl, name string) int {
+	n := len(tr.Calls(fd.Body, name))
+	seen := map[string]bool{}
+	ast.Inspect(fd.Body, func(x ast.Node) bool {
+		c, ok := x.(*ast.CallExpr)
+		if !ok {
+			return true
+		}
+		id, ok := c.Fun.(*ast.Ident)
+		if !ok || seen[id.Name] {
+			return true
+		}
+		seen[id.Name] = true
+		if h := tr.Func("", id.Name); h != nil && h.Body != nil {
+			n += len(tr.Calls(h.Body, name))
+		}
+		return true
+	})
+	return n
+}
+
 func c05Encoding() string {
 	tr, err := Load(c06Treasure)
 	if err != nil {
@@ -29,7 +52,7 @@ func c05Encoding() string {
 	if conv == nil || load == nil {
 		return "unknown"
 	}
-	usesGob := len(tr.Calls(conv.Body, "gob.NewEncoder")) == 1 && len(tr.Calls(load.Body, "gob.NewDecoder")) == 1
+	usesGob := c05CallsVia(tr, conv, "gob.NewEncoder") == 1 && c05CallsVia(tr, load, "gob.NewDecoder") == 1
 	// struct Content / Model: pointer fields, and is there a ContentType-typed field?
 	ptrFields, tag := 0, false
 	ast.Inspect(tr.AST, func(n ast.Node) bool {
